@@ -108,8 +108,9 @@ def main(argv):
             if g not in u.get('proved_callees', r['replaced']):
                 assumptions.add('assumed contract (not proved by any unit): ' + g)
         if r['status'] == 'undecided':
-            if r['reason'].startswith('weave:'):
-                # structural change: contracts cannot attach; a violation is reported only with a concrete failing input
+            if r['reason'].startswith(('weave:', 'goto-cc:', 'goto-instrument:')):
+                # structural change (loop structure, or the signature / types the contract prototype was written against): contracts cannot attach;
+                # a violation is reported only with a concrete failing input of the real code
                 spath, sfound = RP.structural(u, r['reason'], prop, seed)
                 if sfound:
                     struct_viol.append((r['unit'], spath))
